@@ -37,8 +37,9 @@ type FuncContract struct {
 	NoReturn     bool
 	NoPanicProps []string
 	NoFrame      bool
-	Effects      []EffectClause // static write-effect obligations (C19)
-	DeadReturns  map[int]bool   // return sites declared unreachable under the preconditions
+	AtCall       map[string][]Clause // assertions checked at the call sites of the named callee
+	Effects      []EffectClause      // static write-effect obligations (C19)
+	DeadReturns  map[int]bool        // return sites declared unreachable under the preconditions
 	SigReadProps []string
 	Where        string
 	Bounded      string
@@ -100,7 +101,7 @@ var labelRe = regexp.MustCompile(`^([a-zA-Z_][a-zA-Z0-9_.\-]*):\s+`)
 
 var clauseKeywords = map[string]bool{"func": true, "pred": true, "specfunc": true, "axiom": true, "lemma": true, "ghost": true,
 	"requires": true, "ensures": true, "assumes": true, "presumes": true, "modifies": true, "let": true, "loop": true, "trusted": true, "inline": true,
-	"noreturn": true, "assert": true, "bounded": true, "nopanic": true, "noframe": true, "sigreads": true, "deadreturn": true, "effects": true}
+	"noreturn": true, "assert": true, "bounded": true, "nopanic": true, "noframe": true, "sigreads": true, "deadreturn": true, "effects": true, "atcall": true}
 
 // loadContractFile parses one contract file. pkg is the package name used to qualify
 // unqualified function keys ("" for spec files whose keys are fully qualified).
@@ -300,6 +301,20 @@ func (cs *Contracts) loadContractText(path, pkg, text string) error {
 			cur.NoFrame = true
 		case "sigreads":
 			cur.SigReadProps = props
+		case "atcall":
+			// atcall <callee name> <expr>
+			j := strings.IndexAny(rest, " \t")
+			if j < 0 {
+				return fail(fmt.Errorf("atcall <callee> <expr>"))
+			}
+			c, err := parse(strings.TrimSpace(rest[j+1:]))
+			if err != nil {
+				return fail(err)
+			}
+			if cur.AtCall == nil {
+				cur.AtCall = map[string][]Clause{}
+			}
+			cur.AtCall[rest[:j]] = append(cur.AtCall[rest[:j]], c)
 		case "effects":
 			f := strings.Fields(rest)
 			if len(f) == 0 {
